@@ -114,6 +114,8 @@ def _mask_get(a, m):
         if bool(m.scalar_value()):
             return ndarray(a.o.reshape((1,) + a.o.shape), a.d)
         return ndarray(rnp.empty((0,) + a.o.shape, dtype=object), a.d)
+    if m.o.ndim > a.o.ndim:
+        raise IndexError("too many indices for array: array is %d-dimensional, but %d were indexed" % (a.o.ndim, m.o.ndim))
     if m.o.ndim != 1:
         if m.o.shape == a.o.shape and a.n is None and m.n is None:
             # full-shape mask: flatten both
